@@ -211,7 +211,7 @@ def jobs_c16(tier, known):
     dl = 300 if tier == "quick" else 3000
     for seed in ("S14", "S15"):
         for mode in ("d1f1", "d0f0"):
-            js.append(mesh_job("C16", "hex", seed, cfgstr(mode), A_DEL, 1, A_ADDCV | A_PERM, 2, caps="8,16,12,5,0,6,%d" % (6 if tier == "quick" else 7), bcfg="fast", deadline=dl, known=known))
+            js.append(mesh_job("C16", "hex", seed, cfgstr(mode), A_DEL, 1 if tier == "quick" else 2, A_ADDCV | A_PERM, 1, caps="8,16,12,5,0,6,%d" % (6 if tier == "quick" else 7), bcfg="fast", deadline=dl, known=known))
     return js
 
 
